@@ -275,6 +275,12 @@ class Formatter(FormatterInterface):
         }
         function = function_map.get(f.function, f.function)
         args = [self(arg) for arg in f.args]
+        if function == "power" and all(
+            getattr(arg, "dtype", None) == L.DataType.INT for arg in f.args
+        ):
+            # np.power of two integers is an integer power (an error, or 0 under
+            # numba, for a negative exponent), unlike pow in C
+            args[0] = f"float({args[0]})"
         argstr = ", ".join(args)
         if "bessel_y" in function:
             return f"scipy.special.yn({argstr})"
